@@ -1626,6 +1626,84 @@ func c03QueueAnswered(c *Ctx) {
 			}
 			n++
 			esc := flow.ExitsAvoiding(fn, call, enqHere, false)
+			// ... and before the dispatch: a decoded message leaves this function without dispatch and without a frame only
+			// where a test of its method has said that it is not a request (an answer posted by the client has none).
+			// A diversion decided by the id alone swallows every request that happens to carry the id of something pending.
+			examines := func(cond ssa.Value) bool {
+				for {
+					if u, ok := cond.(*ssa.UnOp); ok && u.Op == token.NOT {
+						cond = u.X
+						continue
+					}
+					break
+				}
+				switch x := cond.(type) {
+				case *ssa.BinOp:
+					return derivesFromMethod(x.X) || derivesFromMethod(x.Y)
+				case *ssa.Call:
+					sc := ir.StaticCallee(x)
+					if sc == nil || !c.P.IsLib(sc) {
+						return false
+					}
+					found := false
+					for i, a := range x.Call.Args {
+						if ir.TypeStr(a.Type()) != "*mcp.JSONRPCRequest" || i >= len(sc.Params) {
+							continue
+						}
+						prm := sc.Params[i]
+						ir.EachInstr(sc, func(_ *ssa.BasicBlock, _ int, in3 ssa.Instruction) {
+							if fa, ok := in3.(*ssa.FieldAddr); ok {
+								if key, _, _, _ := ir.FullField(fa); strings.HasSuffix(key, ".Method") {
+									root := ssa.Value(fa)
+									for {
+										if pfa, ok := root.(*ssa.FieldAddr); ok {
+											root = pfa.X
+											continue
+										}
+										break
+									}
+									if root == ssa.Value(prm) {
+										found = true
+									}
+								}
+							}
+						})
+					}
+					return found
+				}
+				return false
+			}
+			var diverted *ssa.BasicBlock
+			seenB := map[*ssa.BasicBlock]bool{}
+			stack := []*ssa.BasicBlock{fn.Blocks[0]}
+			for len(stack) > 0 && diverted == nil {
+				b := stack[len(stack)-1]
+				stack = stack[:len(stack)-1]
+				if seenB[b] || b == fn.Recover {
+					continue
+				}
+				seenB[b] = true
+				stop := false
+				for _, bi := range b.Instrs {
+					if bi == ssa.Instruction(call) || enqHere(bi) {
+						stop = true
+					}
+				}
+				if stop {
+					continue
+				}
+				if _, isRet := b.Instrs[len(b.Instrs)-1].(*ssa.Return); isRet {
+					diverted = b
+					break
+				}
+				if bif, ok := b.Instrs[len(b.Instrs)-1].(*ssa.If); ok && examines(bif.Cond) {
+					continue
+				}
+				stack = append(stack, b.Succs...)
+			}
+			c.R.Check(diverted == nil, "R-queue-answered", "no request diverted before the dispatch in "+fname(fn), c.Pos(call.Pos()),
+				"a message bypasses the dispatch only after a test of its method",
+				sprintf("%s can return without dispatching the message and without queueing any frame on a path that no test of the message's method controls: a request (for instance one whose id equals that of a pending server request) is taken for something else and never answered", fname(fn)))
 			c.R.Check(esc == nil, "R-queue-answered", "answer enqueued after dispatch in "+fname(fn), c.Pos(call.Pos()),
 				"every path from the dispatch to the exit hands a frame to the session's queue",
 				sprintf("%s can return (near %s) after dispatching a request without handing any frame to the session's queue (a send that a default arm can skip does not count): the request gets no answer at all (not even -32603)", fname(fn), iposEsc(c, esc)))
